@@ -120,10 +120,8 @@ def judge(path):
     return out, states, len(evs) // 2
 
 
-def run_witnesses(binp, sc, v):
+def witness_cases(sc):
     fs = [f for f in lib.load_findings(PID) if f.get("witness_file")]
-    if not fs:
-        return 0
     allp = os.path.join(sc, "witness-cases.ndjson")
     owner = []
     with open(allp, "w") as out:
@@ -132,26 +130,28 @@ def run_witnesses(binp, sc, v):
                 if line.strip():
                     out.write(line.strip() + "\n")
                     owner.append(f["id"])
-    n = 0
-    hit = set()
-    sigs = None
-    for rnd in (1, 2):        # the second round is the fresh-process confirmation
-        tr = os.path.join(sc, "witness-trace-%d.ndjson" % rnd)
-        lib.run_report([binp, "-cases", allp, "-out", tr], timeout=900)
-        res, _, _ = judge(tr)
-        cur = {(cid, sig) for sig, _, cid in res}
-        if sigs is not None and cur != sigs:
-            raise lib.Inconclusive("witness disagreements did not reproduce in a fresh process")
-        sigs = cur
-    for sig, det, cid in res:
-        det["witness_of"] = owner[cid - 9000001]
-        hit.add(det["witness_of"])
-        v.add(sig, det)
-        n += 1
-    for f in fs:
-        if f["id"] not in hit:
-            lib.log("[C22] NOTE: the witness of %s no longer disagrees with the specification" % f["id"])
-    return n
+    return fs, allp, owner
+
+
+def record(binp, sc, tag, gen_args, wit_cases, only=None):
+    """One recording round: the witness cases and the generated cases (all, or only the given ids), each in
+    its own fresh driver process, concatenated into one trace for one TLC validation."""
+    parts = []
+    rep = None
+    if wit_cases and os.path.getsize(wit_cases) > 0:
+        wt = os.path.join(sc, "wit-%s.ndjson" % tag)
+        lib.run_report([binp, "-cases", wit_cases, "-out", wt], timeout=900)
+        parts.append(wt)
+    if only is None or only:
+        mt = os.path.join(sc, "gen-%s.ndjson" % tag)
+        args = [binp] + gen_args + (["-only", ",".join(map(str, sorted(only)))] if only else []) + ["-out", mt]
+        rep = lib.run_report(args, timeout=3000)
+        parts.append(mt)
+    allt = os.path.join(sc, "trace-%s.ndjson" % tag)
+    with open(allt, "w") as out:
+        for p in parts:
+            out.write(open(p).read())
+    return allt, rep
 
 
 def check(tier):
@@ -159,26 +159,35 @@ def check(tier):
     binp = lib.build("c22")
     v = lib.Verdict(PID)
     n = 400 if tier == "quick" else 6000
-    with lib.Scratch() as sc:
-        rm = lib.tlc("MC_Recreate", "MC_Recreate.cfg", workers=1, timeout=300, heap="1g")
-        lib.tlc_ok(rm, "MC_Recreate")
-        nw = run_witnesses(binp, sc, v)
-        trace = os.path.join(sc, "trace.ndjson")
+    import concurrent.futures as cf
+    with lib.Scratch() as sc, cf.ThreadPoolExecutor(max_workers=1) as ex:
+        fm = ex.submit(lib.tlc, "MC_Recreate", "MC_Recreate.cfg", workers=1, timeout=300, heap="1g")
+        fs, wit_cases, owner = witness_cases(sc)
         gen_args = ["-n", str(n), "-seed", str(lib.seed())]
-        rep = lib.run_report([binp] + gen_args + ["-out", trace], timeout=3000)
+        trace, rep = record(binp, sc, "main", gen_args, wit_cases)
         lib.log("[C22] %d objects recorded (%d rejected by the engine), %.1fs" % (rep["cases"], rep["extra"]["rejected_by_engine"], time.time() - t0))
         res, states, ncases = judge(trace)
         lib.log("[C22] validated, %d disagreements, %.1fs" % (len(res), time.time() - t0))
+        nw = 0
         if res:
-            # every disagreement again, alone, in a fresh process
-            ctr = os.path.join(sc, "confirm.ndjson")
-            lib.run_report([binp] + gen_args + ["-only", ",".join(str(cid) for cid in sorted({c for _, _, c in res})), "-out", ctr], timeout=3000)
+            # every disagreement again in fresh processes (the witnesses all, the generated cases alone)
+            ctr, _ = record(binp, sc, "confirm", gen_args, wit_cases, only={cid for _, _, cid in res if cid < 9000000})
             again, _, _ = judge(ctr)
             seen = {(cid, sig) for sig, _, cid in again}
+            hit = set()
             for sig, det, cid in res:
                 if (cid, sig) not in seen:
                     raise lib.Inconclusive("disagreement did not reproduce in a fresh process: %s" % det["create"])
+                if cid > 9000000:
+                    det["witness_of"] = owner[cid - 9000001]
+                    hit.add(det["witness_of"])
+                    nw += 1
                 v.add(sig, det)
+            for f in fs:
+                if f["id"] not in hit:
+                    lib.log("[C22] NOTE: the witness of %s no longer disagrees with the specification" % f["id"])
+        rm = fm.result()
+        lib.tlc_ok(rm, "MC_Recreate")
         if rep["cases"] < n * 0.8 or rep["nontrivial"] < n * 0.5:
             raise lib.Inconclusive("vacuous: %d of %d generated objects recorded, %d distinct printed statements" % (rep["cases"], n, rep["nontrivial"]))
         rc = v.finish()
@@ -187,7 +196,7 @@ def check(tier):
             "traces_validated_against_impl": ncases,
             "samples": rep["samples"][:3] or ["(no sample met the sampling rule this run)"],
             "evaluations": ncases, "distinct_nontrivial": rep["nontrivial"],
-            "rule": "one case = one generated object observed, re-created from its printed statement in a fresh engine and observed again; non-trivial = distinct printed statements",
+            "rule": "one case = one object (generated, or a recorded witness) observed, re-created from its printed statement in a fresh engine and observed again; non-trivial = distinct printed statements among the generated objects",
             "by_kind": rep["extra"]["by_kind"], "features": rep["extra"]["tags"], "rejected_by_engine": rep["extra"]["rejected_by_engine"],
             "rejected_classes": rep["extra"]["rejected_classes"], "disagreements_reproduced": len(res), "witness_disagreements": nw,
             "mc_distinct_states": rm.distinct,
